@@ -564,6 +564,12 @@ func (a *Analyzer) Feed(r *ev.Rec) {
 		}
 	case "harness-error":
 		a.rep.Inconclusive = append(a.rep.Inconclusive, "harness error: "+r.Err)
+	case "result-ownership":
+		a.stat("task-results-checked-for-ownership:" + r.Kind)
+		if r.Kind == "shared" {
+			a.find("C15", "task-result-is-live-state", "", r.Q, "the configuration returned by WaitForStableConfig on %d/%d is the node's own: a change the caller made to it (without submitting anything) shows in the node's next status report", r.Cid, r.Nid)
+			a.find("C08", "task-result-is-live-state", "", r.Q, "the configuration returned by WaitForStableConfig on %d/%d is the node's own: the caller's edits change the configuration the leader operates under, without any request", r.Cid, r.Nid)
+		}
 	case "lifecycle":
 		a.stat("lifecycle:" + r.Op + ":" + r.Kind)
 		if r.Kind == "hangs" {
